@@ -100,6 +100,17 @@ theorem addRefused_indirect (q : Q) (k : Nat) (hi : q.indirect = true) (hk : 1 â
     decide_eq_true_eq, if_true]
   split <;> omega
 
+/-- A chain with more buffers than the queue has entries is refused whatever its length â€” the count
+is a natural number here, and the driver must not judge it modulo 2^16 (seeded change C03-10 did:
+65 537 buffers looked like one) â€” and nothing changes. -/
+theorem add_longer_than_queue_refused (q : Q) (ins outs : List Buf) (h : q.n < ins.length + outs.length) :
+    q.add ins outs = (q, .err .queueFull, []) := by
+  unfold Q.add
+  have h0 : Â¬ (ins.length + outs.length = 0) := by omega
+  rw [if_neg h0]
+  have h1 : addRefused q (ins.length + outs.length) = true := by simp [addRefused, h]
+  rw [if_pos h1]
+
 /-- A refused submission has no side effects at all. -/
 theorem add_refused_changes_nothing (q q' : Q) (ins outs : List Buf) (e : Err) (evs : List Ev)
     (h : q.add ins outs = (q', .err e, evs)) : q' = q âˆ§ evs = [] :=
